@@ -538,7 +538,7 @@ SPECS = {
                             "done-ok", "done-err", "done-panic", "done-after-result", "done-tie",
                             "result-ok-primary", "result-ok-hedge", "result-ok-after-error",
                             "result-all_failed-latency", "result-all_failed-parallel", "result-panic"],
-        "model_modules": ["TR.Model.Hedge", "TR.Lemmas.Hedge"],
+        "model_modules": ["TR.Model.Hedge", "TR.Lemmas.Hedge", "TR.Mutants.HedgeEarlyAllFailed"],
         "lean_files": ["TR.Model.Hedge", "TR.Lemmas.Hedge"],
         "sizes": (600, 40000),
         "rule": "seeded random op sequences (arrive/poll/drop/adv/settle) over 1..3 requests, max_hedged_attempts 1..5, fixed / zero / "
